@@ -5,6 +5,7 @@ from .. import stages, worker
 from . import common
 from . import C06 as _c06
 
+SITE_KINDS = {"module-level-mutable", "class-level-mutable", "threading", "global-statement"}
 RULE = ("batches of 2-8 independent library pipelines (own samples, registry, generators) started together behind a barrier "
         "in one fresh process under sys.setswitchinterval(1e-6), each compared with its output when run alone in a fresh "
         "process; plus single calls from a fresh worker thread; correspondence: the render stage for the same cases (the "
